@@ -2,6 +2,7 @@ package props
 
 import (
 	"bytes"
+	"context"
 	"encoding/json"
 	"encoding/xml"
 	"fmt"
@@ -11,6 +12,7 @@ import (
 	"path/filepath"
 	"sort"
 	"strings"
+	"time"
 
 	"github.com/ChrisTrenkamp/xsel"
 	"github.com/ChrisTrenkamp/xsel/node"
@@ -41,7 +43,8 @@ type c20Flags struct {
 	A, M, N, R bool
 	T          string
 	S, V       bool
-	U, E       bool // -u (non-strict XML decoding), -e corp=ACME (entity binding)
+	U, E       bool   // -u (non-strict XML decoding), -e corp=ACME (entity binding)
+	C          string // -c N (number of workers; the printed blocks do not depend on it)
 }
 
 func (f c20Flags) args() []string {
@@ -72,6 +75,9 @@ func (f c20Flags) args() []string {
 	}
 	if f.E {
 		a = append(a, "-e", "corp= ACME ")
+	}
+	if f.C != "" {
+		a = append(a, "-c", f.C)
 	}
 	return a
 }
@@ -363,6 +369,7 @@ func C20(c *run.Check) {
 		{"directory and file", []string{"sub", "g1.xml"}, ""},
 		{"stdin", []string{"-"}, c20Files["g2.xml"]},
 		{"stdin and file", []string{"g1.xml", "-"}, c20Files["g1.xml"]},
+		{"stdin first, then more files than workers", []string{"-", "g2.xml", "g1.xml", "g4.xml"}, c20Files["g3.xml"]},
 		{"html without doctype", []string{"nodoctype.html", "p.html"}, ""},
 		{"missing file", []string{"nope.xml", "g2.xml"}, ""},
 		{"newlines in comments and PIs", []string{"g3.xml", "g2.xml"}, ""},
@@ -378,6 +385,12 @@ func C20(c *run.Check) {
 					continue
 				}
 				flags = append(flags, c20Flags{A: m&1 != 0, M: m&2 != 0, N: m&4 != 0, R: m&8 != 0, T: t, S: sv == 1, V: sv == 1})
+				// worker counts, including values below 1 (the blocks must not depend on -c)
+				if t == "" && (m == 0 || m == 1) {
+					for _, cn := range []string{"0", "-2", "1", "3"} {
+						flags = append(flags, c20Flags{A: m&1 != 0, T: t, S: sv == 1, V: sv == 1, C: cn})
+					}
+				}
 				// XML decoding flags: -u / -e in all four combinations on a subset
 				if (t == "" || t == "xml") && (m == 0 || m == 5 || m == 2) {
 					for ue := 1; ue < 4; ue++ {
@@ -437,11 +450,18 @@ func C20(c *run.Check) {
 				args = append(args, filepath.Join(base, a))
 			}
 		}
-		cmd := exec.Command(bin, args...)
+		// the command normally takes milliseconds; one that has not finished after
+		// three minutes is stuck (e.g. a worker slot that is never released)
+		cctx, cancel := context.WithTimeout(context.Background(), 3*time.Minute)
+		cmd := exec.CommandContext(cctx, bin, args...)
 		cmd.Stdin = strings.NewReader(as.stdin)
 		var so, se bytes.Buffer
 		cmd.Stdout, cmd.Stderr = &so, &se
 		runErr := cmd.Run()
+		if cctx.Err() != nil {
+			runErr = fmt.Errorf("the command did not terminate within 3 minutes (deadlock?)")
+		}
+		cancel()
 		c.Evaluations.Add(1)
 		stdout, stderr := so.String(), se.String()
 		fail := func(msg string) {
@@ -574,7 +594,7 @@ func C20(c *run.Check) {
 						got = want
 					}
 				case node.Attribute:
-					if strings.Contains(rec, n.Local()) && strings.Contains(rec, xmlEscapedContains(n.AttributeValue())) {
+					if strings.Contains(rec, n.Local()) && strings.Contains(rec, xmlEscapedContains(n.AttributeValue())) && (n.Space() == "" || strings.Contains(rec, n.Space())) {
 						got = want
 					}
 				default:
@@ -623,8 +643,8 @@ func C20(c *run.Check) {
 	c.Sample(map[string]interface{}{"args": []string{"-a", "-n", "-x", "//a", "g1.xml", "g2.xml"}, "files": "see rule"})
 	c.Sample(map[string]interface{}{"args": []string{"-m", "-r", "-x", "/*", "sub", "g1.xml"}})
 	c.Set("runs", len(jobs))
-	c.Rule = fmt.Sprintf("the freshly built xsel command run as a subprocess on a generated directory tree (2 good XML files with namespaces/attributes/multi-line text/comment/PI, JSON, HTML, malformed XML and JSON, HTML without doctype, .txt, extension-less, a file with %% in its name and values, nested directories, a dangling symlink, a missing file, stdin) for %d argument sets x %d flag combinations (-a -m -n -r, -t none/xml/html/json, -s/-v, -u/-e) x %d expressions: per input the expected block is derived from the library API on the same bytes (nothing for an empty node-set; string value; -a one record per node; -m one single-line record per node whose text, parsed back by the harness, equals the selected node's subtree with expanded names; 'path: ' prefix unless -n/stdin; type detection; a diagnostic naming each bad input on stderr); stdout must be a concatenation of exactly these blocks in some order", len(argsets), len(flags), len(c20Exprs))
-	c.Assume("the statement fixes no order of files, so blocks are matched as a multiset; attribute and namespace nodes under -m are only required to yield one line carrying their name and value")
+	c.Rule = fmt.Sprintf("the freshly built xsel command run as a subprocess on a generated directory tree (2 good XML files with namespaces/attributes/multi-line text/comment/PI, JSON, HTML, malformed XML and JSON, HTML without doctype, .txt, extension-less, a file with %% in its name and values, nested directories, a dangling symlink, a missing file, stdin) for %d argument sets x %d flag combinations (-a -m -n -r, -t none/xml/html/json, -s/-v, -u/-e, -c 0/-2/1/3) x %d expressions: per input the expected block is derived from the library API on the same bytes (nothing for an empty node-set; string value; -a one record per node; -m one single-line record per node whose text, parsed back by the harness, equals the selected node's subtree with expanded names; 'path: ' prefix unless -n/stdin; type detection; a diagnostic naming each bad input on stderr); stdout must be a concatenation of exactly these blocks in some order", len(argsets), len(flags), len(c20Exprs))
+	c.Assume("the statement fixes no order of files, so blocks are matched as a multiset; attribute and namespace nodes under -m are only required to yield one line carrying their name (local name and, if any, namespace URI; prefix for namespace nodes) and value")
 }
 
 func c20AdjacentText(c store.Cursor) bool {
